@@ -887,6 +887,76 @@ func runC06Includes(c *fw.Ctx) {
 			}
 		}
 	}
+	// two levels: the root includes a.jst, which includes b.jst; parentheses may stand anywhere (a
+	// parenthesis opened in one file and closed in another is the same text). Reduced alphabet.
+	inc2 := filepath.Join(dir, "inc2.jst")
+	judgeNested := func() {
+		full := append([]int{jsight}, seq...)
+		re := refRun(al, full)
+		re.end(al)
+		want := dumpRef(al, re.roots)
+		n := len(seq)
+		for i := 0; i <= n; i++ {
+			for j := i; j <= n; j++ {
+				for k := j + 1; k <= n; k++ {
+					for l := k; l <= n; l++ {
+						if !c.Next() {
+							continue
+						}
+						c.Count("evaluations", 1)
+						text := func(tt []int) string {
+							var b strings.Builder
+							for _, t := range tt {
+								b.WriteString(al[t].text + "\n")
+							}
+							return b.String()
+						}
+						rootT := al[jsight].text + "\n" + text(seq[:i]) + "INCLUDE inc.jst\n" + text(seq[l:])
+						aT := text(seq[i:j]) + "INCLUDE inc2.jst\n" + text(seq[k:l])
+						bT := text(seq[j:k])
+						if os.WriteFile(inc, []byte(aT), 0o644) != nil || os.WriteFile(inc2, []byte(bT), 0o644) != nil {
+							c.NotExhaustive("scratch file")
+							return
+						}
+						ir := scan(rootT)
+						label := fmt.Sprintf("sequence [%s]: root holds tokens ..%d and %d.., a.jst %d..%d and %d..%d, b.jst %d..%d", seqNames(al, seq), i-1, l, i, j-1, k, l-1, j, k-1)
+						witness := map[string]interface{}{"project": map[string]interface{}{"root": "root.jst", "files": map[string]string{"root.jst": rootT, "inc.jst": aT, "inc2.jst": bT}}}
+						switch {
+						case ir.crash != "":
+							c.Violate("context-resolution", "C06:include2:crash", label+": crash "+clipS(ir.crash, 200), witness)
+						case ir.rej == "other":
+							c.Count("include_rejected_for_other_reasons", 1)
+						case re.rejected != "" && ir.rej == "":
+							c.Violate("context-resolution", "C06:include2:accepted:"+re.rejected, fmt.Sprintf("%s: written in one file the reference rejects (%s), over the three files the library builds %s", label, re.rejected, clipS(ir.tree, 200)), witness)
+						case re.rejected == "" && ir.rej != "":
+							c.Violate("context-resolution", "C06:include2:rejected:"+ir.rej, fmt.Sprintf("%s: written in one file the reference builds %s, over the three files the library rejects (%s)", label, clipS(want, 200), ir.msg), witness)
+						case re.rejected != "" && ir.rej != re.rejected:
+							c.Violate("context-resolution", "C06:include2:other-rejection", fmt.Sprintf("%s: reference rejects with %s, the library with %s", label, re.rejected, ir.rej), witness)
+						case re.rejected == "" && ir.tree != want:
+							c.Violate("context-resolution", "C06:include2:forest", fmt.Sprintf("%s: forest %s, reference %s", label, clipS(ir.tree, 300), clipS(want, 300)), witness)
+						default:
+							c.Distinct("inc2|" + label)
+						}
+					}
+				}
+			}
+		}
+	}
+	var recN func(n int)
+	recN = func(n int) {
+		if len(seq) >= 2 {
+			judgeNested()
+		}
+		if n == 0 || c.Expired() {
+			return
+		}
+		for _, t := range reduced {
+			seq = append(seq, t)
+			recN(n - 1)
+			seq = seq[:len(seq)-1]
+		}
+	}
+	recN(3)
 	var rec func(n int, alpha []int)
 	rec = func(n int, alpha []int) {
 		if len(seq) >= 2 {
